@@ -200,7 +200,7 @@ func c05close(c *an.Ctx) {
 }
 
 func c05flush(c *an.Ctx) {
-	wmb := c.Fn("nsqd", "writeMessageToBackend")
+	wmb := backendWriterFn(c)
 	msgT := c.P.Named("nsqd", "Message")
 	itemT := c.P.Named("internal/pqueue", "Item")
 	if wmb == nil || msgT == nil {
